@@ -21,6 +21,12 @@ class Stream:
         return "".join(self.buf)
 
 
+class EmptyFalsyStream(Stream):
+    """a legal text stream that is falsy while nothing has been written to it (any collector defining __len__)"""
+    def __len__(self):
+        return len(self.buf)
+
+
 def bm(rows):
     return "/".join("".join("1" if c else "0" for c in row) for row in rows) if rows else "-"
 
@@ -64,8 +70,8 @@ def run(ctx):
                     [f.add_data(d, optimize=0) for d in calls]; f.make()
                     M = [list(map(bool, row)) for row in f.modules]
                     n = len(M)
-                    out = Stream(True)
-                    key = f"{variant} {hist} {v} {b} {b''.join(calls).hex()}"
+                    out = (EmptyFalsyStream if len(reqs) % 4 == 1 else Stream)(True)
+                    key = f"{variant} {hist} {v} {b} {b''.join(calls).hex()}" + (" stream=empty-falsy" if isinstance(out, EmptyFalsyStream) else "")
                     try:
                         if variant == "print_tty":
                             q.print_tty(out=out)
@@ -109,17 +115,17 @@ def run(ctx):
     # P2: the tty check itself (Model.printAsciiOut / printTtyOut on a 1x1 symbol) for every flag combination
     for tty in (0, 1):
         for inv in (0, 1):
-            for isatty in (0, 1):
+            for isatty in (0, 1, 2, 3):
                 q = qrcode.QRCode(version=1, border=0); q.modules = [[True]]; q.modules_count = 1; q.data_cache = [0]
-                out = Stream(bool(isatty))
+                out = (EmptyFalsyStream if isatty >= 2 else Stream)(bool(isatty % 2)); isatty = isatty % 2
                 try:
                     q.print_ascii(out=out, tty=bool(tty), invert=bool(inv)); e = "ok " + hx(out.text)
                 except Exception as ex:  # noqa
                     e = "err " + err_name(ex) + ("" if out.text == "" else " after-writing")
                 R.corr("asciiout", f"asciiout {tty} {inv} {isatty}", e, ask([f"asciiout {tty} {inv} {isatty}"])[0], tag="P2:tty-check")
-    for isatty in (0, 1):
+    for isatty in (0, 1, 2, 3):
         q = qrcode.QRCode(version=1, border=0); q.modules = [[True]]; q.modules_count = 1; q.data_cache = [0]
-        out = Stream(bool(isatty))
+        out = (EmptyFalsyStream if isatty >= 2 else Stream)(bool(isatty % 2)); isatty = isatty % 2
         try:
             q.print_tty(out=out); e = "ok " + hx(out.text)
         except Exception as ex:  # noqa
